@@ -387,14 +387,14 @@ PRIMS = ["a", "b", "abc", "1", "", "x y", 0, 1, 2, -1, 5, 0.0, 1.0, 2.5, True, F
 LABELS = ["L", "lbl"]
 
 
-def blind_part(r, mode="typed", cond_depth=1, labels=False):
+def blind_part(r, mode="typed", cond_depth=1, labels=False, meaningful=False, jsonable=False):
     if r.pct() < 45:
         return Prim(r.choice(PRIMS))
     ct = r.choice(["map", "list", "mol"])
 
     def mk(kinds):
         if r.coin():
-            return tree(r, kinds, mode, cond_depth, null_p=5)
+            return tree(r, kinds, mode, cond_depth, null_p=5, meaningful=meaningful, jsonable=jsonable)
         return Null()
 
     return Part(
@@ -406,12 +406,14 @@ def blind_part(r, mode="typed", cond_depth=1, labels=False):
     )
 
 
-def anchored_value_cond(r, child, mode, depth):
+def anchored_value_cond(r, child, mode, depth, meaningful=False, jsonable=False):
     """A value condition that the given child satisfies in ~60% of draws (so that the
     walk continues), combined with random trees."""
     if r.pct() < 40:
-        return tree(r, ("value",), mode, depth, null_p=5)
+        return tree(r, ("value",), mode, depth, null_p=5, meaningful=meaningful, jsonable=jsonable)
     c = r.pct()
+    if jsonable and not _jsonable(child):
+        c = c % 55 if isinstance(child, (str, list, dict)) else c % 35
     if c < 35:
         anchor = Leaf("value", "dtype", "equal_to", kwargs={"value": type(child)})
     elif c < 55 and isinstance(child, (str, list, dict)):
@@ -425,14 +427,26 @@ def anchored_value_cond(r, child, mode, depth):
     k = r.pct()
     if k < 50 or depth <= 0:
         return anchor
-    other = tree(r, ("value",), mode, depth - 1, null_p=5)
+    other = tree(r, ("value",), mode, depth - 1, null_p=5, meaningful=meaningful, jsonable=jsonable)
     if k < 75:
         return Op("or", anchor, other) if r.coin() else Op("or", other, anchor)
     return Op(r.choice(["and", "xor"]), anchor, other)
 
 
+def _jsonable(x):
+    if x is None or isinstance(x, (bool, int, str)):
+        return True
+    if isinstance(x, float):
+        return x == x and x not in (float("inf"), float("-inf"))
+    if isinstance(x, list):
+        return all(_jsonable(i) for i in x)
+    if isinstance(x, dict):
+        return all(isinstance(k, str) and _jsonable(v) for k, v in x.items())
+    return False
+
+
 def guided_path(r, doc_, max_len=4, miss=18, mode="typed", labels=False, prim_only=False,
-                want_str=False, min_len=0, cond_depth=2, end_str=False):
+                want_str=False, min_len=0, cond_depth=2, end_str=False, meaningful=False, jsonable=False):
     """A path drawn by walking the document, so that selections are non-empty most of
     the time; with probability `miss` % per part a blind part is injected."""
     parts = []
@@ -443,7 +457,7 @@ def guided_path(r, doc_, max_len=4, miss=18, mode="typed", labels=False, prim_on
         if not conts and r.pct() < 75:
             break
         if not conts or r.pct() < miss:
-            parts.append(Prim(r.choice(PRIMS)) if prim_only else blind_part(r, mode, labels=labels))
+            parts.append(Prim(r.choice(PRIMS)) if prim_only else blind_part(r, mode, labels=labels, meaningful=meaningful, jsonable=jsonable))
             continue
         node = r.choice(conts)
         items = model.items_of(node)
@@ -480,6 +494,8 @@ def guided_path(r, doc_, max_len=4, miss=18, mode="typed", labels=False, prim_on
                     kc = Leaf("key", None, "equal_to", kwargs={"value": k})
                 else:
                     kc = Leaf("key", None, cnd, kwargs={"value": r.subset(ks)})
+                if jsonable and not _jsonable(kc.kwargs["value"]):
+                    kc = Leaf("key", "dtype", "equal_to", kwargs={"value": type(k)}) if type(k) in TYPES else Null()
                 parts.append(Part(ct, key=kc, label=lab))
             else:
                 ct = r.choice(["list", "mol"])
@@ -491,18 +507,19 @@ def guided_path(r, doc_, max_len=4, miss=18, mode="typed", labels=False, prim_on
                 parts.append(Part(ct, index=ic, label=lab))
         elif c < 86:
             ct = r.choice(["map" if is_map else "list", "mol"])
-            vc = anchored_value_cond(r, node[k], mode, cond_depth)
+            vc = anchored_value_cond(r, node[k], mode, cond_depth, meaningful, jsonable)
             parts.append(Part(ct, value=vc, label=lab))
         else:
             ct = r.choice(["map" if is_map else "list", "mol"])
-            vc = anchored_value_cond(r, node[k], mode, 1)
+            vc = anchored_value_cond(r, node[k], mode, 1, meaningful, jsonable)
+            mj = dict(meaningful=meaningful, jsonable=jsonable)
             if ct == "mol":
-                parts.append(Part(ct, key=tree(r, ("key",), mode, 1, null_p=30),
-                                  index=tree(r, ("index",), mode, 1, null_p=30), value=vc, label=lab))
+                parts.append(Part(ct, key=tree(r, ("key",), mode, 1, null_p=30, **mj),
+                                  index=tree(r, ("index",), mode, 1, null_p=30, **mj), value=vc, label=lab))
             elif is_map:
-                parts.append(Part(ct, key=tree(r, ("key",), mode, 1, null_p=20), value=vc, label=lab))
+                parts.append(Part(ct, key=tree(r, ("key",), mode, 1, null_p=20, **mj), value=vc, label=lab))
             else:
-                parts.append(Part(ct, index=tree(r, ("index",), mode, 1, null_p=20), value=vc, label=lab))
+                parts.append(Part(ct, index=tree(r, ("index",), mode, 1, null_p=20, **mj), value=vc, label=lab))
     return PathT(parts)
 
 
@@ -525,7 +542,8 @@ def rule_for(r, doc_, mode="typed", cast_p=0, max_len=4, cond_depth=2, with_doc=
     if cast_p and r.pct() < cast_p:
         cast = r.choice(["bool", "int"])
     p = guided_path(r, doc_, max_len=max_len, mode=mode, want_str=bool(cast) or want_str, prim_only=prim_only,
-                    min_len=1 if cast else 0, end_str=bool(cast), miss=8 if cast else 18)
+                    min_len=1 if cast else 0, end_str=bool(cast), miss=8 if cast else 18,
+                    meaningful=meaningful, jsonable=jsonable)
     if cast and r.pct() < 80:
         # cast-directed: declare the cast that some selected string can take
         strs_ = [v for v, _ in model.ref_select(p.parts, doc_) if isinstance(v, str)]
